@@ -34,13 +34,20 @@ def config_strategy(draw, v, backends=("file",), with_rules=True, overwrite=(Tru
     backend = draw(st.sampled_from(list(backends)))
     ow = draw(st.sampled_from(list(overwrite)))
     default = draw(st.sampled_from(DEFAULT_RULE_NAMES))
+    # the index's text encoding (only matters for arguments passed as str): mostly the default, sometimes latin-1
+    encoding = draw(st.sampled_from(["utf-8", "utf-8", "utf-8", "latin-1"]))
+    from .codec import set_encoding
+    set_encoding(encoding)
     rules = {}
     if with_rules and v.mode != "raw":
         n = draw(st.sampled_from([0, 0, 1, 1, 2, 3]))
         for _ in range(n):
             a = draw(anchor_strategy(v, []))
-            rules[a] = draw(st.sampled_from(ANCHORED_RULE_NAMES))
-    return Config(backend=backend, overwrite=ow, default_rule=default, rules=rules)
+            if a in rules or (isinstance(a, bytes) and any(isinstance(k, str) and k.encode(encoding) == a for k in rules)):
+                continue
+            # rule anchors may be given as text too (one in four)
+            rules[maybe_text(draw, a, one_in=4)] = draw(st.sampled_from(ANCHORED_RULE_NAMES))
+    return Config(backend=backend, overwrite=ow, default_rule=default, rules=rules, encoding=encoding)
 
 
 @st.composite
@@ -177,8 +184,15 @@ def op_strategy(draw, v, led, weights, backend="file", history=()):
         ps = list(wes[w])
         if len(ps) > 1 and draw(st.integers(0, 4)) == 0:
             ps = ps[:draw(st.integers(1, len(ps) - 1))]
-        ps = draw(st.permutations(ps))
-        return ("delete", w, list(ps))
+        ps = list(draw(st.permutations(ps)))
+        if draw(st.integers(0, 5)) == 0:
+            # an inconsistent list: one prefix that is not attached to this webentity, NOT in first position; the request must be
+            # refused as a whole (the library's own error) and change nothing
+            foreign = [p for p, x in sorted(led.prefix_map.items()) if x != w]
+            bad = draw(st.sampled_from(foreign)) if foreign and draw(st.booleans()) else draw(lru_from(v, known))
+            if bad not in ps:
+                ps.insert(draw(st.integers(1, len(ps))), bad)
+        return ("delete", w, ps)
     if kind == "addprefix":
         w = draw(st.sampled_from(sorted(set(led.issued))))
         return ("addprefix", T(draw(lru_from(v, known))), w)
@@ -209,7 +223,7 @@ def op_strategy(draw, v, led, weights, backend="file", history=()):
         return ("move", T(p), to, w)
     if kind == "rule":
         a = draw(anchor_strategy(v, known))
-        return ("rule", T(a), draw(st.sampled_from(ANCHORED_RULE_NAMES)))
+        return ("rule", maybe_text(draw, a, one_in=4), draw(st.sampled_from(ANCHORED_RULE_NAMES)))
     if kind == "unrule":
         return ("unrule", draw(st.sampled_from(sorted(led.rules))))
     if kind == "reopen":
